@@ -108,16 +108,26 @@ Definition justified (g : cfg) (c : cache) (k : key) (n : fnode) : Prop :=
   g_force g = true \/ (exists co, oassoc (H (f_bytes n)) c = Some co) \/
   (exists f, g_prompt g = Some f /\ f k = true).
 
+Lemma guard_step_safe g k inc n' cur' :
+  guard_step g k inc (Some n') = Some cur' ->
+  g_force g = true \/ inc = true \/ (exists f, g_prompt g = Some f /\ f k = true).
+Proof.
+  unfold guard_step, remove_guard, ask.
+  destruct (g_force g) eqn:Ef; [intros _; now left|].
+  destruct inc; [intros _; right; now left|].
+  destruct (g_prompt g) as [f|] eqn:Ep; simpl; [|discriminate].
+  destruct (f k) eqn:Efk; simpl; [|discriminate]. intros _. right. right. eauto.
+Qed.
+
 Lemma del_step_safe g c w0 tgt k n n' cur' :
   kassoc k w0 = Some n ->
   del_step g (mk_change c w0 tgt k) (Some n') = Some cur' -> justified g c k n.
 Proof.
-  intros Hk. unfold del_step, remove_guard, justified, ask. rewrite ch_key_mk.
-  destruct (g_force g) eqn:Ef; [intros _; now left|].
-  destruct (TreeEntry_in_cache (c_old (mk_change c w0 tgt k))) eqn:Ec.
-  - intros _. right. left. eapply in_cache_old; eauto.
-  - destruct (g_prompt g) as [f|] eqn:Ep; simpl; [|discriminate].
-    destruct (f k) eqn:Efk; simpl; [|discriminate]. intros _. right. right. eauto.
+  intros Hk Hd. unfold del_step in Hd. rewrite ch_key_mk in Hd.
+  apply guard_step_safe in Hd as [F|[F|F]]; unfold justified.
+  - now left.
+  - right. left. eapply in_cache_old; eauto.
+  - now right; right.
 Qed.
 
 Definition payload (r : fres) : option (option fnode) :=
@@ -127,22 +137,21 @@ Lemma post_info_payload r : payload (post_info r) = payload r.
 Proof. destruct r as [|x|x|[n|]]; simpl; try reflexivity. now destruct (f_broken n). Qed.
 
 Lemma file_step_safe g c w0 tgt k n n' x :
-  stageable w0 = true -> kassoc k w0 = Some n ->
+  kassoc k w0 = Some n ->
   payload (file_step g c (mk_change c w0 tgt k) (Some n')) = Some x ->
   x = Some n' \/ justified g c k n.
 Proof.
-  intros Hs Hk. unfold file_step.
+  intros Hk. unfold file_step.
   destruct (new_oid (mk_change c w0 tgt k)) as [o|]; [|simpl; intros E; injection E as <-; now left].
-  rewrite post_info_payload. rewrite truthy_old_mk, Hs, Hk. simpl.
-  unfold cf_decide.
-  assert (Hrel : payload (match del_step g (mk_change c w0 tgt k) (Some n') with
-                          | Some cur1 => link_step g c o cur1 | None => FPrompt end) = Some x ->
-                 x = Some n' \/ justified g c k n).
-  { destruct (del_step g (mk_change c w0 tgt k) (Some n')) as [cur1|] eqn:Ed; [|discriminate].
-    intros _. right. eapply del_step_safe; eauto. }
-  destruct (g_relink g); [|exact Hrel].
-  match goal with |- context [if ?b then CfUnprotect else CfRelink] => destruct b end; [|exact Hrel].
-  simpl. intros E; injection E as <-; now left.
+  rewrite post_info_payload.
+  destruct (cf_decide _ _ _ _ _).
+  - rewrite ch_key_mk.
+    destruct (guard_step g k false (Some n')) as [cur1|] eqn:Ed; [|discriminate].
+    intros _. right. apply guard_step_safe in Ed as [F|[F|F]]; unfold justified;
+      [now left | discriminate | now right; right].
+  - simpl. intros E; injection E as <-; now left.
+  - destruct (del_step g (mk_change c w0 tgt k) (Some n')) as [cur1|] eqn:Ed; [|discriminate].
+    intros _. right. eapply del_step_safe; eauto.
 Qed.
 
 Definition Inv g c (w0 w : ws) : Prop :=
@@ -169,16 +178,16 @@ Proof.
   right. exact (del_step_safe g c w0 tgt k n n cur' Hk Ed).
 Qed.
 
-Lemma run_files_Inv g c w0 tgt chs : stageable w0 = true -> Forall (from_w0 c w0 tgt) chs ->
+Lemma run_files_Inv g c w0 tgt chs : Forall (from_w0 c w0 tgt) chs ->
   forall s, Inv g c w0 (s_ws s) -> Inv g c w0 (s_ws (fst (run_files g c chs s))).
 Proof.
-  intros Hs. induction 1 as [|ch chs Hch _ IH]; intros s HI; simpl; [exact HI|].
+  induction 1 as [|ch chs Hch _ IH]; intros s HI; simpl; [exact HI|].
   destruct (new_isdir ch); [now apply IH|].
   assert (Hstep : forall x, payload (file_step g c ch (kassoc (ch_key ch) (s_ws s))) = Some x ->
                             Inv g c w0 (ws_put (ch_key ch) x (s_ws s))).
   { intros x Hp. apply Inv_put; [exact HI|]. intros n Hk Hc. rewrite Hc in Hp.
     unfold from_w0 in Hch. remember (ch_key ch) as k eqn:Ek. rewrite Hch in Hp.
-    exact (file_step_safe g c w0 tgt k n n x Hs Hk Hp). }
+    exact (file_step_safe g c w0 tgt k n n x Hk Hp). }
   destruct (file_step g c ch (kassoc (ch_key ch) (s_ws s))) as [|x|x|x] eqn:Ef; simpl.
   - exact HI.
   - apply IH. simpl. now apply Hstep.
@@ -187,10 +196,10 @@ Proof.
 Qed.
 
 Theorem checkout_no_loss g c w0 tgt order k n :
-  stageable w0 = true -> kassoc k w0 = Some n ->
+  kassoc k w0 = Some n ->
   kassoc k (r_ws (checkout g c w0 tgt order)) = Some n \/ justified g c k n.
 Proof.
-  intros Hs Hk. revert k n Hk. change (Inv g c w0 (r_ws (checkout g c w0 tgt order))).
+  intros Hk. revert k n Hk. change (Inv g c w0 (r_ws (checkout g c w0 tgt order))).
   assert (H0 : Inv g c w0 w0) by (intros q m Hq; now left).
   pose proof (changes_from c w0 tgt order) as HF.
   unfold ObjCheckout.checkout.
@@ -200,7 +209,7 @@ Proof.
   pose proof (run_del_Inv g c w0 tgt (filter (typ_is ochange_DELETE) chs) (Forall_filter _ _ _ HF) w0 H0) as H1.
   destruct (run_del g (filter (typ_is ochange_DELETE) chs) w0) as [w1 [p|]]; simpl in H1; [exact H1|].
   match goal with |- context [run_files g c ?l ?s] =>
-    pose proof (run_files_Inv g c w0 tgt l Hs) as H2; specialize (H2 ltac:(apply Forall_app; split;
+    pose proof (run_files_Inv g c w0 tgt l) as H2; specialize (H2 ltac:(apply Forall_app; split;
       [apply Forall_filter, HF | apply Forall_app; split; [apply Forall_filter, HF | apply Forall_filter, Forall_filter, HF]])
       s H1) end.
   destruct (run_files g c _ _) as [s [p|p|]]; exact H2.
